@@ -260,7 +260,11 @@ func Robust(a Args) error {
 			// nests is quadratic (a recorded finding) and would exhaust the machine
 			runRobust(1, nested(depth), "nested-groups-depth", vp, out, 600000, depth > 2048)
 		case "maxnest":
-			runRobust(1, nestedMax(), "nested-groups-depth", vp, out, 600000, true)
+			// "stack bounded by a small multiple of the bytes supplied", enforced by the runtime itself for the
+			// largest input there is: 16 x 16 MiB (the unchanged tree needs about 4 MB for this input)
+			in := nestedMax()
+			debug.SetMaxStack(16 * len(in))
+			runRobust(1, in, "nested-groups-depth", vp, out, 600000, true)
 		}
 		return nil
 	}
